@@ -5,12 +5,12 @@
  * SCPI_Input with a command table made of the library's own handlers; after every single operation
  * the monitors read all registers with SCPI_RegGet / SCPI_ErrorCount and compare with what the
  * property statement says.  Workloads:
+ *   phase "sweep" (C12) every int16_t error code pushed on a context with ESR = 0 / ESR = prior.
  *   phase "bfs"   breadth-first search over the reachable states of a bounded operation alphabet
  *                 (a "slice": which representative bits each register may be given, which error
  *                 codes may be pushed, queue capacity 2).  state = registers[] + queue count;
  *                 snapshot/restore = byte copy of scpi_t and of the queue storage (text-less errors).
  *   phase "walk"  random walks over full 16-bit values, random queue capacity, random spelling.
- *   phase "sweep" (C12) every int16_t error code pushed on a context with ESR = 0 / ESR = prior.
  * The oracles use the literal bit numbers of the statement, not the library's tables. */
 #include "vh_scpi.h"
 #include <stdio.h>
@@ -730,7 +730,6 @@ static void walk_run(uint64_t idx, vh_rng_t * rng) {
     int qcap = 1 + (int) vh_below(rng, 4), step, f;
     vh_ctx_t * v = new_ctx(qcap);
     op_t ring[RING]; obs_t b, a;
-    (void) idx;
     vh_case_desc("random walk of %d operations, queue capacity %d", WALK_STEPS, qcap);
     observe(v->ctx, &a);
     for (step = 0; step < WALK_STEPS; step++) {
@@ -758,7 +757,7 @@ static void walk_run(uint64_t idx, vh_rng_t * rng) {
     }
     vh_eval(WALK_STEPS);
     ctr[N_WALKS]++; ctr[N_WALK_STEPS] += WALK_STEPS;
-    if (vh_want_sample()) {
+    if (idx < (uint64_t) vh_args.nshards && vh_want_sample()) {
         vh_buf_t t = { 0 }; int j;
         for (j = WALK_STEPS - 4; j < WALK_STEPS; j++) { op_text(&t, &ring[j % RING]); vh_buf_adds(&t, "; "); }
         vh_buf_adds(&t, "-> "); obs_text(&t, &a);
@@ -819,9 +818,9 @@ static void sweep_run(uint64_t idx, vh_rng_t * rng) {
 
 int main(int argc, char ** argv) {
     static const vh_phase_t phases[] = {
+        { "sweep", sweep_count, sweep_run }, /* C12 only; first, so that the shortest witnesses are reported */
         { "bfs", bfs_count, bfs_run },
         { "walk", walk_count, walk_run },
-        { "sweep", sweep_count, sweep_run },
     };
     vh_require("bfs.states");
     vh_require("walk.steps");
